@@ -334,10 +334,64 @@ def r04c(ctx, rep, cr):
     rep.floor('R04c', 'row-mutating engine functions', n, 4)
 
 
+F_IEEE = re.compile(r'PartialOrd for f(64|32)>::(partial_cmp|lt|le|gt|ge)$')
+F_TOTAL = re.compile(r'<impl f(64|32)>::total_cmp$')
+
+
+def _float_order_family(f):
+    fam = set()
+    for c in A.calls(f):
+        if F_IEEE.search(c.resolved):
+            fam.add('ieee (partial_cmp: -0.0 == 0.0)')
+        elif F_TOTAL.search(c.resolved):
+            fam.add('total_cmp (-0.0 < 0.0)')
+    for b in f.bbs:
+        if b['cleanup']:
+            continue
+        for st in b['s']:
+            rv = st[1]
+            if rv[0] == 'bin' and rv[1] in ('Lt', 'Le', 'Gt', 'Ge'):
+                for op in (rv[2], rv[3]):
+                    if op[0] != 'k' and not op[1][1] and f.locals[op[1][0]] in ('f64', 'f32'):
+                        fam.add('ieee (partial_cmp: -0.0 == 0.0)')
+    return fam
+
+
+def r04d(ctx, rep, cr):
+    rep.rule('R04d', 'one float order: every hand-written Ord::cmp / PartialOrd::partial_cmp of a relational_engine type (the keys of the '
+                     'ordered index) compares floats with the same primitive family as Value::partial_cmp_value, which Condition::evaluate '
+                     'uses on rows — an index ordered by total_cmp and a predicate ordered by partial_cmp disagree on -0.0 vs 0.0, so an '
+                     'index range lookup drops rows a scan returns')
+    pred = rep.require_fn('R04d', cr, 'relational_engine::Value::partial_cmp_value')
+    if pred is None:
+        return
+    pf = _float_order_family(pred)
+    if not rep.floor('R04d', 'float comparison primitives in Value::partial_cmp_value', len(pf), 1):
+        return
+    n = 0
+    for name, f in sorted(cr.fns.items()):
+        if not re.match(r'<relational_engine::[\w:]+ as core::cmp::(Ord>::cmp|PartialOrd>::partial_cmp)$', name):
+            continue
+        fam = _float_order_family(f)
+        if not fam:
+            continue
+        n += 1
+        rep.analysed(f)
+        if fam <= pf:
+            rep.holds('R04d', f, 'float order', 'same family as the predicate: %s' % sorted(fam))
+        else:
+            rep.violation('R04d', f, 'float-order-differs', f.loc(),
+                          '%s orders floats by %s while Value::partial_cmp_value (the row predicate) uses %s: a B-tree range lookup with a '
+                          'bound of 0.0 skips rows holding -0.0 (and vice versa) that a full scan returns' % (
+                              lib.short(name), sorted(fam - pf), sorted(pf)))
+    rep.floor('R04d', 'index key comparators that order floats', n, 1)
+
+
 def run(ctx, rep):
     cr = ctx.crate('relational_engine')
     r04a(ctx, rep, cr)
     r04b(ctx, rep, cr)
     r04c(ctx, rep, cr)
+    r04d(ctx, rep, cr)
     import c09
     c09.r09f(ctx, rep, cr)   # index maintenance order: an index must keep answering what a scan answers
